@@ -3324,3 +3324,360 @@ func TestGovcReplay(t *testing.T) {
 		},
 	}}, harnesses...)
 }
+
+func init() {
+	harnesses = append([]*harness{{
+		name:      "tars return-code replay (responses with iRet = 0, 70000, -1, -3, 300 through Decode and Encode)",
+		modelFree: true,
+		match: func(o *Obligation) bool {
+			return strings.HasSuffix(o.Func, "tars.getStreamType")
+		},
+		run: func(eng *Engine, o *Obligation) *ReplayOutcome {
+			src := `package tars
+
+import (
+	"bytes"
+	"context"
+	"fmt"
+	"testing"
+
+	"github.com/TarsCloud/TarsGo/tars/protocol/res/requestf"
+	"mosn.io/pkg/buffer"
+)
+
+// The failed obligation says: a tars response is recognised as a response only for some encodings of its return
+// code. Replay: responses with iRet = 0, 70000, -1, -3, 300, encoded by MOSN's own encoder; every one of them must
+// be decoded and re-encoded to the same bytes (iRet is an int32 the codec writes in its shortest form: ZERO, BYTE,
+// SHORT or INT).
+func TestGovcReplay(t *testing.T) {
+	bad := 0
+	for _, ret := range []int32{0, 70000, -1, -3, 300} {
+		pkt := &requestf.ResponsePacket{IVersion: 1, IRequestId: 5, IRet: ret, SBuffer: []int8{1, 2, 3}, SResultDesc: "x"}
+		wire, err := encodeResponse(context.Background(), &Response{cmd: pkt})
+		if err != nil {
+			fmt.Println("REPLAY-INCONCLUSIVE encode:", err)
+			return
+		}
+		in := buffer.NewIoBufferBytes(append([]byte{}, wire.Bytes()...))
+		cmd, err := tarsProtocol{}.Decode(context.Background(), in)
+		if err != nil || cmd == nil {
+			bad++
+			fmt.Printf("REPLAY-CONFIRMED a response with iRet=%d is not decoded (the connection is closed instead of forwarding it): %v\n", ret, err)
+			continue
+		}
+		out, err := tarsProtocol{}.Encode(context.Background(), cmd)
+		if err != nil || !bytes.Equal(out.Bytes(), wire.Bytes()) {
+			bad++
+			fmt.Printf("REPLAY-CONFIRMED iRet=%d: the forwarded frame differs\n", ret)
+		}
+	}
+	if bad == 0 {
+		fmt.Println("REPLAY-NOT-REPRODUCED every response is decoded and forwarded unchanged")
+	}
+}
+`
+			out, _ := runOverlayTest("pkg/protocol/xprotocol/tars", src, "^TestGovcReplay$")
+			return outcomeFromOutput(src, out)
+		},
+	}}, harnesses...)
+}
+
+func init() {
+	harnesses = append([]*harness{{
+		name:      "filter body replacement replay (bolt request, body replaced through SetRequestData, re-encoded)",
+		modelFree: true,
+		match: func(o *Obligation) bool {
+			return strings.HasSuffix(o.Func, "proxy.(*streamReceiverFilterHandler).SetRequestData") || strings.HasSuffix(o.Func, "proxy.(*streamSenderFilterHandler).SetResponseData")
+		},
+		run: func(eng *Engine, o *Obligation) *ReplayOutcome {
+			src := `package proxy
+
+import (
+	"bytes"
+	"context"
+	"fmt"
+	"testing"
+
+	"mosn.io/mosn/pkg/protocol/xprotocol/bolt"
+	"mosn.io/pkg/buffer"
+)
+
+// The failed obligation says: a body replaced through the receive filter handler keeps the identity of the received
+// buffer, which the protocol codecs read as "body unchanged". Replay: decode a bolt request, hand its body buffer to
+// the proxy as the request body, replace the body through SetRequestData, give the proxy's body buffer to the frame
+// (what the xprotocol stream does in AppendData) and encode: the forwarded frame must carry the new body.
+func TestGovcReplay(t *testing.T) {
+	ctx := context.Background()
+	proto := (&bolt.XCodec{}).NewXProtocol(ctx)
+	oldBody, newBody := []byte("old-body-old-body"), []byte("NEW")
+	wire, err := proto.Encode(ctx, bolt.NewRpcRequest(1, nil, buffer.NewIoBufferBytes(oldBody)))
+	if err != nil {
+		fmt.Println("REPLAY-INCONCLUSIVE encode:", err)
+		return
+	}
+	cmd, err := proto.Decode(ctx, buffer.NewIoBufferBytes(append([]byte{}, wire.Bytes()...)))
+	if err != nil || cmd == nil {
+		fmt.Println("REPLAY-INCONCLUSIVE decode:", err)
+		return
+	}
+	req := cmd.(*bolt.Request)
+	s := &downStream{downstreamReqDataBuf: req.GetData()}
+	h := newStreamReceiverFilterHandler(s)
+	h.SetRequestData(buffer.NewIoBufferBytes(append([]byte{}, newBody...)))
+	req.SetData(s.downstreamReqDataBuf) // xStream.AppendData
+	out, err := proto.Encode(ctx, req)
+	if err != nil {
+		fmt.Println("REPLAY-NOT-REPRODUCED the frame is refused:", err)
+		return
+	}
+	back, err := proto.Decode(ctx, buffer.NewIoBufferBytes(append([]byte{}, out.Bytes()...)))
+	var got []byte
+	if err == nil && back != nil && back.(*bolt.Request).GetData() != nil {
+		got = back.(*bolt.Request).GetData().Bytes()
+	}
+	if !bytes.Equal(got, newBody) {
+		fmt.Printf("REPLAY-CONFIRMED the filter replaced the body with %q, the forwarded frame carries %q (decode error: %v)\n", newBody, got, err)
+		return
+	}
+	fmt.Println("REPLAY-NOT-REPRODUCED the forwarded frame carries the new body")
+}
+`
+			out, _ := runOverlayTest("pkg/proxy", src, "^TestGovcReplay$")
+			return outcomeFromOutput(src, out)
+		},
+	}}, harnesses...)
+}
+
+func init() {
+	harnesses = append([]*harness{{
+		name:      "regex rewrite installation replay (one-character pattern)",
+		modelFree: true,
+		match: func(o *Obligation) bool {
+			return strings.HasSuffix(o.Func, "router.NewRouteRuleImplBase") && strings.Contains(o.Name, "regexRewriteInstalled")
+		},
+		run: func(eng *Engine, o *Obligation) *ReplayOutcome {
+			src := `package router
+
+import (
+	"context"
+	"fmt"
+	"testing"
+
+	v2 "mosn.io/mosn/pkg/config/v2"
+	"mosn.io/mosn/pkg/protocol"
+	"mosn.io/mosn/pkg/types"
+	"mosn.io/pkg/variable"
+)
+
+// The failed obligation says: a configured regex rewrite is not installed. Replay: route /a_b with regex_rewrite
+// pattern "_" -> "-" (a one-character pattern); the request /a_b must be forwarded as /a-b.
+func TestGovcReplay(t *testing.T) {
+	routers, err := NewRouters(&v2.RouterConfiguration{
+		VirtualHosts: []v2.VirtualHost{{Name: "default", Domains: []string{"*"}, Routers: []v2.Router{{RouterConfig: v2.RouterConfig{
+			Match: v2.RouterMatch{Prefix: "/"},
+			Route: v2.RouteAction{RouterActionConfig: v2.RouterActionConfig{ClusterName: "c", RegexRewrite: &v2.RegexRewrite{Pattern: v2.PatternConfig{Regex: "_"}, Substitution: "-"}}},
+		}}}}},
+	})
+	if err != nil {
+		fmt.Println("REPLAY-INCONCLUSIVE", err)
+		return
+	}
+	ctx := variable.NewVariableContext(context.Background())
+	variable.SetString(ctx, types.VarPath, "/a_b")
+	headers := protocol.CommonHeader(map[string]string{})
+	rt := routers.MatchRoute(ctx, headers)
+	if rt == nil {
+		fmt.Println("REPLAY-INCONCLUSIVE no route")
+		return
+	}
+	rt.RouteRule().FinalizeRequestHeaders(ctx, headers, nil)
+	got, _ := variable.GetString(ctx, types.VarPath)
+	if got != "/a-b" {
+		fmt.Printf("REPLAY-CONFIRMED regex_rewrite {pattern: \"_\", substitution: \"-\"} is configured, the request /a_b is forwarded as %q\n", got)
+		return
+	}
+	fmt.Println("REPLAY-NOT-REPRODUCED forwarded as", got)
+}
+`
+			out, _ := runOverlayTest("pkg/router", src, "^TestGovcReplay$")
+			return outcomeFromOutput(src, out)
+		},
+	}}, harnesses...)
+}
+
+func init() {
+	harnesses = append([]*harness{{
+		name:      "pool shutdown self-deadlock replay (hand-built binding pool with one bound client)",
+		modelFree: true,
+		match: func(o *Obligation) bool {
+			return strings.HasSuffix(o.Func, "stream/xprotocol.(*poolBinding).Shutdown")
+		},
+		run: func(eng *Engine, o *Obligation) *ReplayOutcome {
+			src := `package xprotocol
+
+import (
+	"fmt"
+	"testing"
+	"time"
+
+	"mosn.io/mosn/pkg/stream"
+)
+
+type govcBusyClient struct{ stream.Client }
+
+func (govcBusyClient) ActiveRequestsNum() int { return 1 } // a request is in flight: go-away does not close the connection yet
+
+// The failed obligation says: Shutdown calls, with the pool's mutex held, a method that takes the same mutex. Replay
+// on a hand-built binding pool with one bound client: Shutdown must return.
+func TestGovcReplay(t *testing.T) {
+	pool := &poolBinding{connpool: &connpool{}, idleClients: map[uint64]*activeClientBinding{}}
+	ac := &activeClientBinding{pool: pool, downstreamConnID: 7, codecClient: govcBusyClient{}}
+	pool.idleClients[7] = ac
+	done := make(chan struct{})
+	go func() {
+		pool.Shutdown()
+		close(done)
+	}()
+	select {
+	case <-done:
+		fmt.Println("REPLAY-NOT-REPRODUCED Shutdown returned; clients left in the pool:", len(pool.idleClients))
+	case <-time.After(2 * time.Second):
+		fmt.Println("REPLAY-CONFIRMED poolBinding.Shutdown does not return (it holds clientMux and calls OnGoAway -> removeFromPool, which locks clientMux again): the goroutine that shuts the pool down - a cluster update - hangs forever and the pool stays locked")
+	}
+}
+`
+			out, _ := runOverlayTest("pkg/stream/xprotocol", src, "^TestGovcReplay$")
+			return outcomeFromOutput(src, out)
+		},
+	}}, harnesses...)
+}
+
+func init() {
+	harnesses = append([]*harness{{
+		name:      "HTTP/1 interim response replay (real client stream connection on a loopback socket, scripted upstream bytes)",
+		modelFree: true,
+		match: func(o *Obligation) bool {
+			return strings.HasSuffix(o.Func, "stream/http.(*clientStreamConnection).serve") && strings.Contains(o.Name, "finalResponse") ||
+				strings.HasSuffix(o.Func, "stream/http.isInterimResponse")
+		},
+		run: func(eng *Engine, o *Obligation) *ReplayOutcome {
+			src := `package http
+
+import (
+	"context"
+	"fmt"
+	"net"
+	"strconv"
+	"testing"
+	"time"
+
+	"github.com/valyala/fasthttp"
+	"mosn.io/api"
+	"mosn.io/mosn/pkg/network"
+	mosnhttp "mosn.io/mosn/pkg/protocol/http"
+	"mosn.io/mosn/pkg/types"
+	"mosn.io/pkg/buffer"
+	"mosn.io/pkg/variable"
+)
+
+// The failed obligation says: an interim (1xx) response of the upstream is handed over as THE response of the
+// request. Replay on a real client stream connection: request A is answered with "103 Early Hints" followed by its final
+// answer; then request B is sent on the same connection and NOT answered yet: B must not receive A's answer.
+type govcReceiver struct {
+	got chan string
+}
+
+func (r *govcReceiver) OnReceive(ctx context.Context, headers types.HeaderMap, data types.IoBuffer, trailers types.HeaderMap) {
+	status := "?"
+	if h, ok := headers.(mosnhttp.ResponseHeader); ok {
+		status = strconv.Itoa(h.StatusCode())
+	}
+	body := ""
+	if data != nil {
+		body = data.String()
+	}
+	r.got <- status + " " + body
+}
+
+func (r *govcReceiver) OnDecodeError(ctx context.Context, err error, headers types.HeaderMap) {}
+
+type govcConnListener struct{}
+
+func (l *govcConnListener) OnGoAway() {}
+
+func TestGovcReplay(t *testing.T) {
+	// an upstream that accepts the connection and swallows the requests; its answers are
+	// injected below through Dispatch, exactly as the connection's read filter would do
+	ln, err := net.Listen("tcp", "127.0.0.1:0")
+	if err != nil {
+		fmt.Println("REPLAY-INCONCLUSIVE listen:", err); return
+	}
+	defer ln.Close()
+	go func() {
+		c, err := ln.Accept()
+		if err != nil {
+			return
+		}
+		buf := make([]byte, 4096)
+		for {
+			if _, err := c.Read(buf); err != nil {
+				return
+			}
+		}
+	}()
+
+	conn := network.NewClientConnection(time.Second, nil, ln.Addr(), make(chan struct{}))
+	if err := conn.Connect(); err != nil {
+		fmt.Println("REPLAY-INCONCLUSIVE connect:", err); return
+	}
+	defer conn.Close(api.NoFlush, api.LocalClose)
+
+	connCtx := variable.NewVariableContext(context.Background())
+	csc := newClientStreamConnection(connCtx, conn, &govcConnListener{}, nil).(*clientStreamConnection)
+
+	send := func(path string) *govcReceiver {
+		ctx := variable.NewVariableContext(buffer.NewBufferPoolContext(context.Background()))
+		variable.SetString(ctx, types.VarPath, path)
+		variable.SetString(ctx, types.VarPathOriginal, path)
+		recv := &govcReceiver{got: make(chan string, 4)}
+		sender := csc.NewStream(ctx, recv)
+		if err := sender.AppendHeaders(ctx, mosnhttp.RequestHeader{RequestHeader: &fasthttp.RequestHeader{}}, true); err != nil {
+			fmt.Println("REPLAY-INCONCLUSIVE send:", path, err)
+		}
+		return recv
+	}
+	wait := func(r *govcReceiver) string {
+		select {
+		case s := <-r.got:
+			return s
+		case <-time.After(2 * time.Second):
+			return "<nothing>"
+		}
+	}
+
+	// request A; the upstream answers "103 Early Hints" followed by the final answer of A
+	recvA := send("/A")
+	csc.Dispatch(buffer.NewIoBufferString(
+		"HTTP/1.1 103 Early Hints\r\nLink: </style.css>; rel=preload\r\n\r\n" +
+			"HTTP/1.1 200 OK\r\nContent-Length: 8\r\n\r\nanswer-A"))
+	gotA := wait(recvA)
+	t.Logf("request A received: %q", gotA)
+
+	// the stream of A is finished (client.go destroys it on OnReceive), the pool reuses the connection for B.
+	// The upstream has NOT answered B yet.
+	recvB := send("/B")
+	gotB := wait(recvB)
+	t.Logf("request B received: %q", gotB)
+
+	if gotB == "200 answer-A" || gotA != "200 answer-A" {
+		fmt.Printf("REPLAY-CONFIRMED request A received %q (the interim response) and request B, not answered by the upstream yet, received %q: the answer produced for A\n", gotA, gotB)
+		return
+	}
+	fmt.Printf("REPLAY-NOT-REPRODUCED A received %q, B received %q\n", gotA, gotB)
+}
+`
+			out, _ := runOverlayTest("pkg/stream/http", src, "^TestGovcReplay$")
+			return outcomeFromOutput(src, out)
+		},
+	}}, harnesses...)
+}
